@@ -244,7 +244,9 @@ func (ex *Exec) applyContract(st *State, fr *Frame, x *ssa.Call, c *Contract, ke
 	var rets []Val
 	for i := 0; i < results.Len(); i++ {
 		save := ex.Inputs
+		ex.resultMode = true
 		rv := ex.symVal(st, fmt.Sprintf("r%d_%s_%d", i, short, ex.nfreshNext()), results.At(i).Type(), 1)
+		ex.resultMode = false
 		ex.Inputs = save
 		rets = append(rets, rv)
 		nm := "result"
